@@ -51,6 +51,8 @@ type harnessStat struct {
 	Steps       int64
 	Unknowns    int
 	Samples     []map[string]interface{}
+	Agree       []agreeSample // completed paths without any violation, to be re-run natively
+	okSeen      int
 	Funcs       map[string]bool
 	Wall        float64
 	BoundHit    bool
@@ -79,6 +81,7 @@ var (
 	maxSteps   = flag.Int("max-steps", 5000000, "max SSA instructions per path")
 	timeoutMs  = flag.Int("query-timeout", 60000, "solver timeout per query (ms)")
 	noReplay   = flag.Bool("no-replay", false, "skip native replay (debug)")
+	agree      = flag.Int("agree", 2, "completed violation-free paths per harness whose inputs are re-run natively (translator validation); 0 = off")
 	replayFile = flag.String("replay", "", "replay a stored counterexample file natively")
 	solverKind = flag.String("solver", "z3", "z3|z3-new|cvc5")
 	verbose    = flag.Bool("v", false, "verbose")
@@ -172,15 +175,44 @@ func run() int {
 		}
 		return replayOnly(ovPaths)
 	}
-	names, dirs := selectHarnesses(ov)
-	if len(names) == 0 {
-		return fail("reason=no-harness prop=%s", *prop)
-	}
 	env := []string{"GOFLAGS=-mod=mod", "GOPROXY=off", "GOSUMDB=off", "GOTOOLCHAIN=local"}
-	sh, err := interp.Load(*repo, dirs, ov, "verif", env)
-	if err != nil {
-		return fail("reason=load-failed %v", err)
+	var names map[string]string
+	var sh *interp.Shared
+	// A harness file that no longer compiles against the current tree (an internal function it
+	// calls changed its signature) is dropped and reported as inconclusive; the remaining
+	// harnesses of the package still run.
+	var dropped []string
+	for attempt := 0; ; attempt++ {
+		var dirs []string
+		names, dirs = selectHarnesses(ov)
+		if len(names) == 0 {
+			return fail("reason=no-harness prop=%s dropped=%v", *prop, dropped)
+		}
+		sh, err = interp.Load(*repo, dirs, ov, "verif", env)
+		if err == nil {
+			break
+		}
+		bad := map[string]bool{}
+		for _, m := range regexp.MustCompile(`(/[^\s:]*/zz_verif_[A-Za-z0-9_]+\.go):\d+`).FindAllStringSubmatch(err.Error(), -1) {
+			if _, ok := ov[m[1]]; ok && !strings.HasSuffix(m[1], "zz_verif_base.go") && !strings.Contains(m[1], "/zzverif/") {
+				bad[m[1]] = true
+			}
+		}
+		if len(bad) == 0 || attempt >= 5 {
+			return fail("reason=load-failed %v", err)
+		}
+		for f := range bad {
+			delete(ov, f)
+			delete(ovPaths, f)
+			dropped = append(dropped, f)
+			for _, l := range strings.Split(err.Error(), "\n") {
+				if strings.HasPrefix(l, f+":") {
+					fmt.Println("  does not compile: " + l)
+				}
+			}
+		}
 	}
+	sort.Strings(dropped)
 	loadS := time.Since(t0).Seconds()
 	var hs []*ssa.Function
 	for _, h := range sh.Harnesses() {
@@ -229,6 +261,12 @@ func run() int {
 	// verdicts
 	totalReplays := 0
 	reproducedKnown := map[string]bool{}
+	for _, f := range dropped {
+		lines = append(lines, fmt.Sprintf("INCONCLUSIVE harness-file=%s reason=does-not-compile-against-the-current-tree (its harnesses were not run)", f))
+		if exit == 0 {
+			exit = 2
+		}
+	}
 	for _, h := range hs {
 		st := stats[h.Name()]
 		// inconclusive conditions
@@ -315,6 +353,61 @@ func run() int {
 			}
 		}
 	}
+	// translator validation: inputs of completed, violation-free paths are re-run natively; the
+	// real build must pass every assertion the symbolic run passed
+	agreed := 0
+	if exit == 0 && !*noReplay && *agree > 0 {
+		byPkg := map[string][]string{}
+		tmpA, _ := os.MkdirTemp("", "symgo-agree-")
+		defer os.RemoveAll(tmpA)
+		for _, h := range hs {
+			st := stats[h.Name()]
+			for k, a := range st.Agree {
+				if k >= *agree {
+					break
+				}
+				r := replayJSON{Harness: h.Name(), Property: propOf(h.Name()), Label: "", Nondet: map[string]string{}, Choices: a.Choices, Prefix: a.Prefix}
+				for name, val := range a.Model {
+					r.Nondet[name] = val.String()
+				}
+				f := filepath.Join(tmpA, fmt.Sprintf("%s-%d.json", h.Name(), k))
+				b, _ := json.Marshal(r)
+				os.WriteFile(f, b, 0o644)
+				byPkg[names[h.Name()]] = append(byPkg[names[h.Name()]], f)
+			}
+		}
+		var pkgs []string
+		for k := range byPkg {
+			pkgs = append(pkgs, k)
+		}
+		sort.Strings(pkgs)
+		for _, rel := range pkgs {
+			n, bad, out := nativeAgree(rel, byPkg[rel], ovPaths)
+			agreed += n
+			for _, b := range bad {
+				lines = append(lines, fmt.Sprintf("ENGINE-MISMATCH %s (a path the symbolic run completed without violation fails natively)", b))
+				exit = 2
+			}
+			if len(bad) > 0 {
+				// keep the sample inputs for inspection
+				dir := filepath.Join(*replayDir, "agreement-mismatch")
+				os.MkdirAll(dir, 0o755)
+				for _, f := range byPkg[rel] {
+					if b, err := os.ReadFile(f); err == nil {
+						os.WriteFile(filepath.Join(dir, filepath.Base(f)), b, 0o644)
+					}
+				}
+			}
+			if n == 0 && len(bad) == 0 {
+				lines = append(lines, fmt.Sprintf("INCONCLUSIVE reason=native-agreement-run-failed pkg=%s", rel))
+				if *verbose {
+					fmt.Println(out)
+				}
+				exit = 2
+			}
+		}
+	}
+	totalReplays += agreed
 	sort.SliceStable(lines, func(i, j int) bool { return false })
 	for _, l := range lines {
 		fmt.Println(l)
@@ -420,7 +513,11 @@ func explore(sh *interp.Shared, h *ssa.Function, known map[string]bool) *harness
 				switch res.Status {
 				case "cut":
 					st.Cuts[res.Reason]++
-				case "ok", "infeasible", "assert-end", "crash":
+				case "crash":
+					if *verbose {
+						fmt.Printf("  path %s ended: crash: %s\n", interp.DecString(res.Decs), res.Reason)
+					}
+				case "ok", "infeasible", "assert-end":
 				default:
 					st.Unsupported[res.Status+": "+res.Reason]++
 					if *verbose && st.Unsupported[res.Status+": "+res.Reason] == 1 {
@@ -431,6 +528,18 @@ func explore(sh *interp.Shared, h *ssa.Function, known map[string]bool) *harness
 					fmt.Printf("  violation path %s labels=%s observed=%v\n", interp.DecString(res.Decs), res.Violations[0].Label, res.Observed)
 				}
 				st.Violations = append(st.Violations, res.Violations...)
+				if res.Status == "ok" && len(res.Violations) == 0 && res.Witness != nil {
+					st.okSeen++
+					// keep the first completed path and the two latest ones at power-of-two positions
+					if st.okSeen&(st.okSeen-1) == 0 {
+						a := agreeSample{Model: res.Witness, Choices: append([]int{}, res.Choices...), Prefix: interp.DecString(res.Decs)}
+						if len(st.Agree) < 3 {
+							st.Agree = append(st.Agree, a)
+						} else {
+							st.Agree[1], st.Agree[2] = st.Agree[2], a
+						}
+					}
+				}
 				if len(st.Samples) < 4 && res.Status == "ok" {
 					st.Samples = append(st.Samples, sample(h.Name(), res))
 				}
@@ -475,6 +584,38 @@ func sample(h string, res *interp.PathResult) map[string]interface{} {
 	return m
 }
 
+type agreeSample struct {
+	Model   map[string]*big.Int
+	Choices []int
+	Prefix  string
+}
+
+// nativeAgree runs the listed sample inputs natively in one go test process of the package.
+func nativeAgree(relDir string, files []string, ovPaths map[string]string) (int, []string, string) {
+	ok, out := nativeReplayEnv(relDir, ovPaths, []string{"ZZVERIF_REPLAY_LIST=" + strings.Join(files, ":")})
+	_ = ok
+	n := strings.Count(out, "AGREE-OK ")
+	var bad []string
+	for _, l := range strings.Split(out, "\n") {
+		if strings.HasPrefix(l, "AGREE-MISMATCH ") {
+			bad = append(bad, strings.TrimPrefix(l, "AGREE-MISMATCH "))
+		}
+	}
+	if strings.Contains(out, "panic:") && !strings.Contains(out, "AGREE-DONE") {
+		bad = append(bad, "native process died: "+firstLine(out, "panic:"))
+	}
+	return n, bad, out
+}
+
+func firstLine(out, needle string) string {
+	for _, l := range strings.Split(out, "\n") {
+		if strings.Contains(l, needle) {
+			return l
+		}
+	}
+	return ""
+}
+
 type replayJSON struct {
 	Harness  string            `json:"harness"`
 	Property string            `json:"property"`
@@ -508,8 +649,8 @@ func sanitize(s string) string {
 	return regexp.MustCompile(`[^A-Za-z0-9_.-]`).ReplaceAllString(s, "_")
 }
 
-// nativeReplay compiles the harnessed package with the overlay and runs the counterexample.
-func nativeReplay(relDir, replayPath string, ovPaths map[string]string, repeat int) (bool, string) {
+// nativeReplayEnv compiles the harnessed package with the overlay and runs TestZZReplay with the given environment.
+func nativeReplayEnv(relDir string, ovPaths map[string]string, env []string) (bool, string) {
 	tmp, err := os.MkdirTemp("", "symgo-replay-")
 	if err != nil {
 		return false, err.Error()
@@ -549,9 +690,14 @@ func nativeReplay(relDir, replayPath string, ovPaths map[string]string, repeat i
 	os.WriteFile(ovFile, ovJSON, 0o644)
 	cmd := exec.Command("go", "test", "-tags", "verif", "-vet=off", "-count=1", "-overlay", ovFile, "-ldflags=-checklinkname=0", "-run", "^TestZZReplay$", "-v", "./"+relDir)
 	cmd.Dir = *repo
-	cmd.Env = append(os.Environ(), "GOFLAGS=-mod=mod", "GOPROXY=off", "GOSUMDB=off", "GOTOOLCHAIN=local", "ZZVERIF_REPLAY="+replayPath, fmt.Sprintf("ZZVERIF_REPEAT=%d", repeat))
-	out, _ := cmd.CombinedOutput()
-	s := string(out)
+	cmd.Env = append(append(os.Environ(), "GOFLAGS=-mod=mod", "GOPROXY=off", "GOSUMDB=off", "GOTOOLCHAIN=local"), env...)
+	out, err := cmd.CombinedOutput()
+	return err == nil, string(out)
+}
+
+// nativeReplay compiles the harnessed package with the overlay and runs the counterexample.
+func nativeReplay(relDir, replayPath string, ovPaths map[string]string, repeat int) (bool, string) {
+	_, s := nativeReplayEnv(relDir, ovPaths, []string{"ZZVERIF_REPLAY=" + replayPath, fmt.Sprintf("ZZVERIF_REPEAT=%d", repeat)})
 	if strings.Contains(s, "REPLAY-REPRODUCED") {
 		return true, s
 	}
